@@ -591,7 +591,9 @@ def run_searcher_scenario(spec):
                 lines.append((inp, {"err": errname(e)}))
                 events.append({"ev": "clone-error", "err": errname(e), "via": via})
                 continue
-            order = list(state["excl_list"]["excl_set"]) if kind == "random" else list(state["all_initial_configs"]["excl_set"])
+            # (a state lacking the exclusion set is observed as an empty one: the model then disagrees)
+            order = list(state.get("excl_list", {}).get("excl_set", [])) if kind == "random" \
+                else list(state.get("all_initial_configs", {}).get("excl_set", []))
             inp["order"] = order
             s = new
             out = {"p2e": [enc_config(c) for c in s._points_to_evaluate]}
